@@ -631,7 +631,7 @@ func C01() *check.Property {
 		Title:    "Observable contract: values, then at most one terminal, then silence",
 		Patterns: CorePatterns,
 		Scope:    []string{ro},
-		Rules:    []check.Rule{ruleGates(), ruleStatusMonotone(), ruleWrap(), ruleSubjectGate(), ruleDropHook(), ruleLockRegion(), ruleSubjectBroadcastLocked(), ruleCoreDelivers(), ruleNilGuardPolarity(), ruleNilableCallbackGuarded(), ruleSubjectDelivers(), ruleLateEmission(), ruleMultiProducerSafe()},
+		Rules:    []check.Rule{ruleGates(), ruleStatusMonotone(), ruleWrap(), ruleSubjectGate(), ruleDropHook(), ruleLockRegion(), ruleSubjectBroadcastLocked(), ruleCoreDelivers(), ruleNilGuardPolarity(), ruleNilableCallbackGuarded(), ruleSubjectDelivers(), ruleLateEmission(), ruleMultiProducerSafe(), ruleTypeProtection()},
 		Explanation: "Static check of the premises of the grammar argument. Every observer reaches a stream only through a subscriber created by the Subscribe it was passed to (WRAP, over every type that implements Observable); a subscriber delivers Next only " +
 			"after testing status == 0 under the producer lock and a terminal only after winning the compare-and-swap 0 -> k (GATE, CFG dominance; LOCK-REGION); the same one level down in observerImpl, whose callbacks are only invoked by the try* helpers, " +
 			"whose call sites are gated; the status word only ever moves away from open (STATUS-MONOTONE, all writes enumerated); subjects gate broadcasts, stores and registrations on status == KindNext under their mutex (SUBJECT-GATE); refusals go to the hook (DROP-HOOK). " +
